@@ -209,12 +209,17 @@ def nonlinear_effective_in_loop(prop, rec):
         return None
     # (2) exact moment recurrences along the source run
     need, pairs = [], []
+    from .checks.c14 import json_vars
+    names = json_vars(src, set())
     for v, g in work:
         if v not in phi:
             continue
         lhs = _subst_poly(g, phi)
         if lhs is None:
             return None
+        used = {x for p_ in (lhs, phi[v]) for m in p_ for x, _ in m}
+        if not used <= names:
+            continue        # a temporary of Polar's parser that the generator's own AST does not have
         pairs.append((v, lhs, phi[v]))
         need += monos_of(lhs) + monos_of(phi[v])
     seen, monos = set(), []
